@@ -55,3 +55,19 @@ func TestVerifC05Concurrent(t *testing.T) {
 		t.Fatal(err)
 	}
 }
+
+// clone-early stage (BigToc(n) of Toc.tla): Clone immediately after NewReader - while the TOC may still be parsed in
+// the background - and the clone is walked.
+func TestVerifC05CloneEarly(t *testing.T) {
+	db, err := c05OpenDB(t, "c05-early.db")
+	if err != nil {
+		t.Fatal(err)
+	}
+	defer db.Close()
+	err = metadata.C05CloneEarly("db", func(sr *io.SectionReader, opts ...metadata.Option) (metadata.Reader, error) {
+		return NewReader(db, sr, opts...)
+	})
+	if err != nil {
+		t.Fatal(err)
+	}
+}
